@@ -24,6 +24,30 @@ for bw, be, u8, pfx in _cfgs:
                                    include_env=("log_stub", "memfile"), timeout=3000 if hard else 400, functions=fns, solver="kissat" if hard else "cadical",
                                    bounds="1 sample; every finite float/double value (non-clipping: those whose scaled value fits an int)"))
 
+# float32.c / double64.c conversion kernels (one element, scale on the grid)
+def fconv_harnesses():
+    out = []
+    table = [("double64.c", 1, ["d2s", "d2s_clip", "d2i", "d2i_clip", "d2f", "s2d", "i2d", "f2d"]),
+             ("float32.c", 0, ["f2s", "f2s_clip", "f2i", "f2i_clip", "f2d", "s2f", "i2f", "d2f"])]
+    for cfile, isd, fns in table:
+        for fn in fns:
+            if fn in ("d2f", "f2d"):
+                scales = [("1", "1.0")]
+            elif fn.startswith(("s2", "i2")):
+                scales = [("1", "1.0"), ("inv", "(1.0 / 32768.0)" if fn.startswith("s2") else "(1.0 / 2147483648.0)")]
+            elif "2s" in fn:
+                scales = [("1", "1.0"), ("n", "32767.0")]
+            else:
+                scales = [("1", "1.0"), ("n", "2147483647.0")]
+            for stag, sexpr in scales:
+                d = {"FCONV_FILE": '"%s"' % cfile, "FN_" + fn: 1, "SCALE": sexpr, "MF_CAP": 16}
+                if isd: d["IS_DOUBLE"] = 1
+                heavy = stag == "n" and isd
+                out.append(H("fconv.%s.%s.scale%s" % (cfile[:-2], fn, stag), "C02/fconv.c", link=["common"], stubs=["psf_log_printf"], defines=d, unwind=4, checks="assert",
+                             solver="cadical", include_env=("log_stub", "memfile"), timeout=600, functions=[fn + "_array"], bounds="one element, every finite value (non-clipping variants: scaled value within the target range), scale = %s" % sexpr))
+    return out
+HARNESSES += fconv_harnesses()
+
 META = {"assumptions": ["float->int without clipping is only checked where lrint(x*scale) fits an int (C conversion otherwise unspecified)",
                         "NaN/Inf inputs excluded", "goto-cc build uses lrint/lrintf (not the SSE2 intrinsics)"],
         "outside": ["real-arithmetic nearest-integer oracle (IEEE product rounding is part of the oracle)"]}
